@@ -375,10 +375,21 @@ class An:
             return ('const', ty, op['int'])
         if 'int_str' in op:
             return ('const', ty, int(op['int_str']))
+        if 'tyconst' in op and str(op['tyconst']).isdigit():
+            return ('const', ty, int(op['tyconst']))       # a const generic parameter instantiated by inlining
         if 'uneval' in op:
+            if op.get('uneval_name') == 'USIZE' and (op.get('uneval_trait') or '').endswith('typenum::Unsigned'):
+                # <N as Unsigned>::USIZE is N::to_usize(): one spelling (the one the rules know)
+                st = op.get('uneval_self')
+                return ('call', 'generic_array::typenum::Unsigned::to_usize', (), -1,
+                        ('generic_array::typenum::Unsigned', 'to_usize', st, None, (st,), None))
             return ('aconst', op.get('uneval_trait'), op.get('uneval_name'), op.get('uneval_self'), op['uneval'])
         if op.get('zst'):
             return ('const', ty, ('zst',))
+        import re as _re
+        m = _re.match(r'^(\d+)(_[iu](8|16|32|64|128|size))?$', str(op.get('text', '')))
+        if m:
+            return ('const', ty, int(m.group(1)))     # a const generic parameter instantiated by inlining
         return ('const', ty, ('text', op.get('text', '?')))
 
     def place_desc(self, place, point):
@@ -741,7 +752,14 @@ class An:
                 if s in seen:
                     continue
                 seen.add(s)
-                out.append((s, self.term_of_def(0, s)))
+                t = self.term_of_def(0, s)
+                if t[0] == 'phi':
+                    # `_0 = move r` with r built on several paths (the return value of an inlined helper): one return value
+                    # per alternative, at the site where that alternative was built
+                    for s2, t2 in t[1]:
+                        out.append((s2 if isinstance(s2, tuple) and len(s2) == 2 else s, t2))
+                else:
+                    out.append((s, t))
         # _0 may also be built by partial stores / be a memory local
         if not out and self.cfg.returns:
             p = self.term_point(self.cfg.returns[0])
